@@ -236,7 +236,7 @@ func TestCheck(t *testing.T) {
 	rec = mon.Open("C12")
 	defer rec.Close()
 	rec.Note("rule", "a case is one topology run against the real managers in a synctest bubble: 0-4 runners drawn from {nil, error, context.Canceled, wrapped Canceled, block-until-cancel (returning nil / an error / ctx.Err), gate-released (nil / error)} finishing in a seeded order, parent context cancelled or not; for the closer manager additionally 0-4 closers of the four accepted types with seeded durations and errors, grace period unset / generous / exceeded, Close before / during / after Run (repeated, concurrent), AddCloser during the run and AddCloser parked at its decision point while Run enters the closing phase, unsupported closer types. The sequence-stamped event log is judged offline. Non-trivial = at least one runner or closer; distinct = distinct topology description.")
-	rec.Note("require", []string{"runner.first_return_cancels_others", "runner.parent_cancel", "closer.fatal_fired", "closer.fatal_not_fired", "closer.close_during_run", "closer.close_before_run", "closer.concurrent_close", "closer.addcloser_during_run", "placed.addcloser_parked", "closer.unsupported_type_rejected", "closer.all_runners_registered_with_add", "join.errors_checked", "closer.addcloser_from_a_running_closer_refused", "closer.returns_context_canceled", "parent_end.cancel", "parent_end.deadline", "parent_end.cause", "parent_end.already-ended", "racing.addcloser_accepted", "racing.addcloser_rejected", "shared_slice.managers_start_their_own_runners"})
+	rec.Note("require", []string{"runner.first_return_cancels_others", "runner.parent_cancel", "closer.fatal_fired", "closer.fatal_not_fired", "closer.close_during_run", "closer.close_before_run", "closer.concurrent_close", "closer.addcloser_during_run", "placed.addcloser_parked", "closer.unsupported_type_rejected", "closer.all_runners_registered_with_add", "shared_slice.slice_given_to_first_add", "join.errors_checked", "closer.addcloser_from_a_running_closer_refused", "closer.returns_context_canceled", "parent_end.cancel", "parent_end.deadline", "parent_end.cause", "parent_end.already-ended", "racing.addcloser_accepted", "racing.addcloser_rejected", "shared_slice.managers_start_their_own_runners"})
 	ps := plans()
 	rec.Planned(len(ps))
 	for idx, pl := range ps {
@@ -267,7 +267,13 @@ func runSharedSlice(t *testing.T, idx int, rng *mon.RNG) {
 	spare := rng.Range(1, 3)
 	closerMgr := rng.Bool()
 	edit := rng.Chance(1, 3)
-	w := &world{idx: idx, mode: "shared-slice", desc: fmt.Sprintf("initial=%d spare=%d closerManager=%v callerEditsSlice=%v", n, spare, closerMgr, edit)}
+	// how the caller's slice reaches the managers: through the constructor, or spread into the first Add of a
+	// manager constructed empty
+	viaAdd := idx%2 == 1
+	if viaAdd && n == 0 {
+		n = 1
+	}
+	w := &world{idx: idx, mode: "shared-slice", desc: fmt.Sprintf("initial=%d spare=%d closerManager=%v callerEditsSlice=%v sliceGivenToFirstAdd=%v", n, spare, closerMgr, edit, viaAdd)}
 	rec.Begin(idx, w.mode+" "+w.desc)
 	res := mon.Bubble(t, func() {
 		mk := func(id int) concurrency.Runner {
@@ -287,12 +293,25 @@ func runSharedSlice(t *testing.T, idx int, rng *mon.RNG) {
 			Run(context.Context) error
 		}
 		build := func() mgr {
+			initial := rs
+			if viaAdd {
+				initial = nil
+			}
+			var m mgr
 			if closerMgr {
 				log := logger.NewLogger("c12")
 				log.SetOutputLevel(logger.FatalLevel)
-				return concurrency.NewRunnerCloserManager(log, nil, rs...)
+				m = concurrency.NewRunnerCloserManager(log, nil, initial...)
+			} else {
+				m = concurrency.NewRunnerManager(initial...)
 			}
-			return concurrency.NewRunnerManager(rs...)
+			if viaAdd {
+				if err := m.Add(rs...); err != nil {
+					w.violation("shared-slice/add-rejected", err.Error())
+				}
+				rec.Count("shared_slice.slice_given_to_first_add", 1)
+			}
+			return m
 		}
 		m1 := build()
 		m2 := build()
